@@ -85,3 +85,7 @@ func vpResyncVsReincarnation(prop string) {
 // BOUND: topology 0; a statefulset pod (symbolic policy) bound, then gone (deleted; its event handled or still pending) so that its IP is reserved or still recorded for the key; an administrator's API release of that IP runs while, as a second logical thread starting inside any one window right before/after an API-server or IPAM call of the release (symbolic window 0..12), the same-named pod is re-created with a new UID, filtered and bound; the second thread waits (parks) wherever it needs a pod/pool key lock the release holds; afterwards another pod is scheduled. No two live pods may hold one IP and every live bound pod must own its IP
 // ASSUME: C04: two logical threads as in VerifC01_q_releaseVsRebind (same scenario, checked under C04)
 func VerifC04_q_releaseVsRebind() { vpReleaseVsRebind("C04") }
+
+// BOUND: cloud provider configured; topology 0; a statefulset pod (symbolic policy) bound on n1, finished (event handled) and deleted (its delete event still pending = late event of the old incarnation); the same-named pod is re-created (new UID), filtered, and its Bind on any approved node among n1,n5 runs while, as a second logical thread starting inside any one window of that Bind (API-server, provider or IPAM call; symbolic window 0..14), the late event is handled; the second thread parks wherever it needs the pod key lock Bind holds and continues when Bind releases it
+// ASSUME: C04: same scenario as VerifC10_q_bindVsLateEvent, checked under C04 (a live bound pod keeps its IP)
+func VerifC04_q_bindVsLateEvent() { vpBindVsLateEvent("C04") }
